@@ -4,7 +4,7 @@
    [rget]/[resolve_with]/[search]/[enc_struct_with]/[dec_map_entries] mirror the code. *)
 From Coq Require Import List NArith ZArith Arith Bool Lia.
 From Verif Require Import Base.Outcome Wire.Item Gen.Consts C16.Spec C16.Model C16.SpecEnc
-     C16.Proofs C16.ProofsResolve C16.ProofsTrie C16.ProofsEnc C16.ProofsTop.
+     C16.Proofs C16.ProofsResolve C16.ProofsTrie C16.ProofsEnc C16.ProofsTop C16.Scratch C16.ProofsScratch.
 Import ListNotations.
 
 (* FIELDS: for every declaration (any embedding depth, by value or pointer, any tags) in
@@ -126,6 +126,50 @@ Theorem C16_decode_array_extra : forall (decv : cand -> mval -> item -> res mval
   if o_error_if_no_field o then Err EOther else dec_arr_elems decv o t fs (S j) v rest.
 Proof. exact dec_arr_extra_lemma. Qed.
 Print Assumptions C16_decode_array_extra.
+
+(* ENCODER HISTORY.  kStruct gathers the entries to emit in a scratch list taken from a pool the
+   Encoder keeps across values and Encode calls (sfiRvFreeList, Scratch.v: get, put and
+   freelistCapacity as in helper.go, the backing arrays' memory shared as in Go), emits them one
+   by one — encoding any number of nested structs in between, each taking a list from the same
+   pool — and hands the list back.
+
+   get never hands out a list that is still pooled (so two structs being emitted never share
+   one), the list is long enough, and the pool stays free of duplicates *)
+Theorem C16_scratch_exclusive : forall (n : nat) (s : st),
+  pool_ok s ->
+  n <= snd (fst (get n s)) /\
+  ~ In (fst (fst (get n s))) (map fst (s_pool (snd (get n s)))) /\
+  pool_ok (snd (get n s)).
+Proof. exact scratch_exclusive_lemma. Qed.
+Print Assumptions C16_scratch_exclusive.
+
+(* whatever one Encoder has encoded before ([before]: any sequence of struct values, nested to
+   any depth), every struct of whatever it encodes next ([f]: again any sequence, any nesting,
+   any field counts) emits exactly the entries it gathered, in order: later slice elements,
+   later Encode calls and nested structs are encoded like the first struct of a fresh Encoder *)
+Theorem C16_scratch_history : forall (before f : forest),
+  let s := snd (run_forest before st0) in
+  fst (run_forest f s) = spec_forest f /\ pool_ok (snd (run_forest f s)).
+Proof. exact scratch_history_lemma. Qed.
+Print Assumptions C16_scratch_history.
+
+(* the same from any duplicate-free pool (e.g. one left behind by an Encode that failed half way
+   and never handed its lists back) *)
+Theorem C16_scratch_any_pool : forall (f : forest) (s : st),
+  pool_ok s -> fst (run_forest f s) = spec_forest f /\ pool_ok (snd (run_forest f s)).
+Proof. exact scratch_any_pool_lemma. Qed.
+Print Assumptions C16_scratch_any_pool.
+
+(* non-vacuity: a struct of 3 entries whose first entry holds a struct of 4, encoded twice by one
+   Encoder: both times the outer struct emits its own entries 1,2,3 (a pool that kept the
+   handed-out list pooled would emit 1,11,12,13,14,12,13 the second time), and two lists of
+   capacity 8 are pooled afterwards *)
+Example C16_scratch_nonvacuous :
+  let inner := FStruct 4 (ECons 11%N FNil (ECons 12%N FNil (ECons 13%N FNil (ECons 14%N FNil ENil)))) FNil in
+  let outer rest := FStruct 3 (ECons 1%N inner (ECons 2%N FNil (ECons 3%N FNil ENil))) rest in
+  let r := run_forest (outer (outer FNil)) st0 in
+  fst r = [1; 11; 12; 13; 14; 2; 3; 1; 11; 12; 13; 14; 2; 3]%N /\ s_pool (snd r) = [(0%N, 8); (1%N, 8)].
+Proof. vm_compute. split; reflexivity. Qed.
 
 (* non-vacuity: a declaration with embedding by pointer, a collision at different depths, a
    json fallback tag and "-" resolves as documented and is not cut *)
